@@ -597,6 +597,8 @@ func Dial(ctx context.Context, opt Options) (c *Client, err error) {
 
 	client, err := Connect(ctx, conn, opt)
 	if err != nil {
+		// The connection was dialed here, so nobody else can close it.
+		_ = conn.Close()
 		return nil, errors.Wrap(err, "connect")
 	}
 
